@@ -97,6 +97,16 @@ def gen_case(rng, name, rel, directed=None):
     c = int(rng.choice(np.unique(y0)))
     keep = np.setdiff1d(np.arange(len(y0)), np.flatnonzero(y0 == c)[1:])
     tr = gen.training(rng, name, X=tr['X'][keep], y=y0[keep])
+  if name == 'RCA' and rng.random() < 0.4:
+    # a chunklet with a SINGLE member (its centred point is the zero vector): any chunk layout is in the quantifier
+    a = list(tr['fit_args'])
+    ch = np.array(a[1]).copy()
+    free = np.flatnonzero(ch == -1)
+    i = int(free[0]) if len(free) else int(rng.integers(len(ch)))
+    if len(free) or (ch == ch[i]).sum() > 2:
+      ch[i] = ch.max() + 1 + int(rng.integers(0, 3))
+      a[1] = ch
+      tr = dict(tr, fit_args=tuple(a))
   X = tr['X']
   ncls = len(set(tr['y'].tolist()))
   if name == 'RCA_Supervised':
